@@ -62,6 +62,27 @@ Fixpoint map_opt {A B} (f : A -> option B) (l : list A) : option (list B) :=
 Section Enc.
   Variable oz : bool.   (* the toolchain's encoding/json knows omitzero (Go >= 1.24) *)
 
+  (* is the field left out? *)
+  Definition omitted (f : jfield) (fv : tval) : bool :=
+    (jf_omitempty f && is_empty fv) || (oz && jf_omitzero f && is_zero fv).
+
+  (* the members of a struct value, given the encoder for the field values *)
+  Fixpoint enc_fields (enc : gtype -> tval -> option json) (t : gtype) (v : tval) (fs : list jfield) : option (list (str * json)) :=
+    match fs with
+    | [] => Some []
+    | f :: r =>
+        match field_at (jf_index f) t v with
+        | None => enc_fields enc t v r      (* a nil embedded pointer on the way *)
+        | Some (ft, fv) =>
+            if omitted f fv then enc_fields enc t v r
+            else if jf_quoted f then None   (* the ",string" option: outside the domain *)
+            else match enc ft fv, enc_fields enc t v r with
+                 | Some j, Some t => Some ((jf_name f, j) :: t)
+                 | _, _ => None
+                 end
+        end
+    end.
+
   Fixpoint encode (n : nat) (t : gtype) (v : tval) : option json :=
     match n with
     | O => None
@@ -83,23 +104,7 @@ Section Enc.
             option_map (fun vs => JObj (combine (keys (sort_by_key m)) vs))
                        (map_opt (fun kv => encode n' t' (snd kv)) (sort_by_key m))
         | TyStd _, VStdV j => Some j
-        | TyStruct _, VStruct _ =>
-            option_map JObj
-              ((fix go (fs : list jfield) : option (list (str * json)) :=
-                  match fs with
-                  | [] => Some []
-                  | f :: r =>
-                      match field_at (jf_index f) t v with
-                      | None => go r
-                      | Some (ft, fv) =>
-                          if (jf_omitempty f && is_empty fv) || (oz && jf_omitzero f && is_zero fv) then go r
-                          else if jf_quoted f then None   (* the ",string" option: outside the domain *)
-                          else match encode n' ft fv, go r with
-                               | Some j, Some t => Some ((jf_name f, j) :: t)
-                               | _, _ => None
-                               end
-                      end
-                  end) (json_fields (fun _ => false) t))
+        | TyStruct _, VStruct _ => option_map JObj (enc_fields (encode n') t v (json_fields (fun _ => false) t))
         | _, _ => None
         end
     end.
